@@ -56,11 +56,11 @@ const (
 )
 
 type record struct {
-	kind  int
-	op    int    // index of the op that saved it
-	canon string // canonical content
-	index uint64 // entry index / snapshot index
-	term  uint64 // snapshot term
+	kind   int
+	op     int    // index of the op that saved it
+	canon  string // canonical content
+	index  uint64 // entry index / snapshot index
+	term   uint64 // snapshot term
 	commit uint64 // state commit
 	// location in the segment files (file = index into history.files, -1 = never reached a file)
 	file       int
